@@ -341,6 +341,68 @@ func c05rollfds(w *W, writers, boundaries int, ci int, dir string) (string, stri
 	return "", ""
 }
 
+// c05stalledRotator: the goroutine that won a rotation is stalled for more than one whole interval between
+// claiming the rotation and swapping the files, while another writer keeps writing and performs the next
+// rotation; afterwards the appender must still hold at most two descriptors at rest and none after Stop,
+// and nothing written may be lost.
+func c05stalledRotator(w *W, ci int, dir string, point string) (string, string) {
+	_ = os.RemoveAll(dir)
+	_ = os.MkdirAll(dir, 0755)
+	interval := time.Second
+	ap := &log.RollingFileAppender{AppenderBase: log.AppenderBase{Name: "roll"}, Layout: &log.TextLayout{}, FileDir: dir, FileName: "sr.log", Rotation: log.TimeRotation{Interval: interval}, MaxAge: 24}
+	var armed, stalled atomic.Bool
+	log.VerifPointFn = func(name string) {
+		if name == point && armed.CompareAndSwap(true, false) {
+			stalled.Store(true)
+			time.Sleep(interval + 400*time.Millisecond)
+		}
+	}
+	defer func() { log.VerifPointFn = nil }()
+	if err := ap.Start(); err != nil {
+		return "start: " + err.Error(), "start"
+	}
+	armed.Store(true)
+	stopAt := time.Now().Truncate(interval).Add(4*interval + 300*time.Millisecond)
+	var wg sync.WaitGroup
+	var mu sync.Mutex
+	written := map[string]bool{}
+	for g := 0; g < 2; g++ {
+		wg.Add(1)
+		go func(g int) {
+			defer wg.Done()
+			for i := 0; time.Now().Before(stopAt); i++ {
+				id := fmt.Sprintf("id-r%dx%d-%d", g, ci, i)
+				ap.Write([]byte(id + "\n"))
+				mu.Lock()
+				written[id] = true
+				mu.Unlock()
+				time.Sleep(300 * time.Microsecond)
+			}
+		}(g)
+	}
+	wg.Wait()
+	if !stalled.Load() {
+		ap.Stop()
+		return "the rotator was never stalled", "inconclusive"
+	}
+	fds := fdsInto(dir)
+	if len(fds) > 2 {
+		ap.Stop()
+		return fmt.Sprintf("%d descriptors into the log directory while no write is in progress, after a rotator was overtaken by the next rotation: %v", len(fds), fds), "fd-accumulation-stalled-rotator"
+	}
+	ap.Stop()
+	if fds := fdsInto(dir); len(fds) != 0 {
+		return fmt.Sprintf("descriptors still open after Stop (a rotator was overtaken by the next rotation): %v", fds), "fd-leak-stalled-rotator"
+	}
+	got := idsIn(readDirAll(dir))
+	for id := range written {
+		if got[id] != 1 {
+			return fmt.Sprintf("%s is in the files %d times after a rotator was overtaken by the next rotation", id, got[id]), "lost-write-stalled-rotator"
+		}
+	}
+	return "", ""
+}
+
 func c05Worker(w *W) {
 	registerMonitorPlugins()
 	tag := log.RegisterTag("c05tag")
@@ -419,6 +481,16 @@ func c05Worker(w *W) {
 		} else {
 			w.Distinct(fmt.Sprintf("rollfds|w%d|b%d|%s", writers, w.Spec.N, w.Spec.Flavour))
 			w.Sample(cs)
+		}
+	case "stalledrotator":
+		point := w.Arg("point", "roll.rotate.cas")
+		d, cls := c05stalledRotator(w, w.Spec.Shard, dir, point)
+		w.Eval(1)
+		if d != "" {
+			report("rolling:"+cls, d, map[string]any{"scenario": "stalled rotator", "stalled_at": point})
+		} else {
+			w.Distinct("stalledrotator|" + point + "|" + w.Spec.Flavour)
+			w.Sample(map[string]any{"scenario": "rotator stalled 1.4 intervals at " + point + ", overtaken by the next rotation"})
 		}
 	case "doublestop":
 		mk := map[string]func() log.Appender{
@@ -499,6 +571,11 @@ func init() {
 				specs = append(specs, s)
 			}
 			specs = append(specs, d.NewSpec("doublestop", "doublestop", 0, 1))
+			for i, pt := range []string{"roll.rotate.cas", "roll.rotate.closedold", "roll.rotate.created"} {
+				s := d.NewSpec("stalledrotator", fmt.Sprintf("stalledrotator-%d", i), i, 3)
+				s.Args["point"] = pt
+				specs = append(specs, s)
+			}
 			for i := range specs {
 				specs[i].TimeoutS = int(d.Pick(150, 900))
 			}
